@@ -20,10 +20,10 @@ Obs == {ToSet(R.groups[i]) : i \in 1..Len(R.groups)}
 Sets(G) == {g.files : g \in G}
 Dummy == [files |-> <<>>, cfg |-> [kind |-> "over", rf |-> 1, isolate |-> FALSE, matchLinks |-> FALSE, skipContent |-> FALSE, P |-> 1, T |-> 1], bad |-> {}]
 
-TInit == TLCSet(1, 1) /\ TLCSet(2, 0) /\ l = 1 /\ inp = Dummy /\ stage = "done" /\ phase = "begin" /\ groups = {} /\ todo = {} /\ got = {} /\ pass = {}
+TInit == TLCSet(1, 1) /\ TLCSet(2, 0) /\ l = 1 /\ inp = Dummy /\ stage = "done" /\ phase = "begin" /\ groups = {} /\ todo = {} /\ got = {} /\ pass = {} /\ failed = {}
 TReset == /\ IsEv("Reset")
           /\ inp' = [files |-> R.inp.files, cfg |-> R.inp.cfg, bad |-> {}]
-          /\ stage' = "size" /\ phase' = "begin" /\ groups' = {} /\ todo' = {} /\ got' = {} /\ pass' = {}
+          /\ stage' = "size" /\ phase' = "begin" /\ groups' = {} /\ todo' = {} /\ got' = {} /\ pass' = {} /\ failed' = {}
 TPaths == IsEv("StageDone") /\ R.stage = "paths" /\ BySize /\ Sets(groups') = Obs
 TBegin == l <= Len(Rec) /\ Begin /\ UNCHANGED l
 TTask == l <= Len(Rec) /\ phase = "tasks" /\ todo # {} /\ Task(CHOOSE r \in todo : TRUE) /\ UNCHANGED l
